@@ -10,6 +10,7 @@ import TapkeeVerif.Proofs.SpeCentroid
 import TapkeeVerif.Gen.SpeVariant
 import TapkeeVerif.Proofs.SpeAlgebra
 import TapkeeVerif.Proofs.RandProjLemmas
+import TapkeeVerif.Proofs.RandomHppLemmas
 /-!
 # C19 — SPE, Random Projection, Factor Analysis meet their spec for every random stream
 
@@ -418,6 +419,67 @@ theorem spe_iteration_preserves_centroid {K : Type} [Field K] [DecidableEq K] [L
     (h : coordStep d Y dist sqrtO alpha tol lam ps = .ok Y') :
     Y'.size = Y.size ∧ ∀ c : Fin d, colSum d Y' c = colSum d Y c :=
   coordStep_centroid Y Y' dist sqrtO alpha tol lam ps h
+
+/-! ## `defines/random.hpp` — the default random paths, `std::rand()` as an input stream -/
+section randomhpp
+open TapkeeVerif.RandomHpp
+variable {K : Type} [Field K] [LinearOrder K] [IsStrictOrderedRing K]
+
+/-- `uniform_random() ∈ [0, 1)` and `uniform_random_index_bounded(upper) ∈ [0, upper)` for every value `rand()` can
+    return (`0 ≤ r ≤ RAND_MAX`) — the contract the SPE index theorems assume of the uniform stream. -/
+theorem uniform_random_in_unit_interval (r : Nat) (h : r ≤ randMax) :
+    (0 ≤ uniformRandom (K := K) r ∧ uniformRandom (K := K) r < 1) ∧
+    ∀ upper, 0 < upper → uniformIndexBounded r upper < upper :=
+  ⟨uniformRandom_range r h, fun _ hu => Nat.mod_lt _ hu⟩
+
+/-- `gaussian_random()` (polar method) for EVERY `rand()` stream, every starting position and every amount of fuel:
+    whenever the rejection loop returns, the accepted radius lies in `(0, 1)`; hence — for any `log` oracle that is
+    negative on `(0,1)` and any `sqrt` oracle meeting its contract — the division is by a non-zero number, `log` is
+    applied inside its domain, `sqrt` to a positive number, and the returned variate `g = x·s` satisfies
+    `g² = x²·(−2·log(radius)/radius)` with `x² < 1`: no stream can produce an infinite or undefined variate, so the
+    Random-Projection matrix is finite for every stream.  (Boundary draws `0`, `RAND_MAX`, `2^30` are rejected or
+    harmless: `radius = 0`, `radius ≥ 1` never leave the loop.) -/
+theorem gaussian_random_finite (rand : Nat → Nat) (sqrtO logO : K → K)
+    (hlog : ∀ r, 0 < r → r < 1 → logO r < 0)
+    (hsqrt : ∀ a, 0 ≤ a → 0 ≤ sqrtO a ∧ sqrtO a * sqrtO a = a)
+    (fuel c : Nat) (g : K) (c' : Nat) (h : gaussianRandom rand sqrtO logO fuel c = some (g, c')) :
+    ∃ x radius : K, polarLoop rand fuel c = some (x, radius, c') ∧
+      0 < radius ∧ radius < 1 ∧ 0 < -2 * logO radius / radius ∧
+      g = x * sqrtO (-2 * logO radius / radius) ∧ x * x < 1 ∧
+      g * g = x * x * (-2 * logO radius / radius) ∧
+      (∃ i, c' = c + 2 * (i + 1)) := by
+  unfold gaussianRandom at h
+  split at h
+  · cases h
+  · rename_i x radius c'' hp
+    simp only [Option.some.injEq, Prod.mk.injEq] at h
+    obtain ⟨hg, hc⟩ := h
+    subst hc
+    obtain ⟨h0, h1, ⟨i, hi, _⟩, hx, hr⟩ := polarLoop_accept rand fuel c x radius c'' hp
+    have harg : 0 < -2 * logO radius / radius :=
+      div_pos (by have := hlog radius h0 h1; linarith) h0
+    have hxx : x * x < 1 := by
+      have : x * x ≤ radius := by rw [hr]; linarith [mul_self_nonneg (toUnit (K := K) (rand (c'' - 1)))]
+      linarith
+    have hcast : (-(((2 : Nat) : K))) = -2 := by push_cast; rfl
+    rw [hcast] at hg
+    refine ⟨x, radius, hp, h0, h1, harg, hg.symm, hxx, ?_, ⟨i, hi⟩⟩
+    rw [← hg]
+    have := (hsqrt _ harg.le).2
+    calc x * sqrtO (-2 * logO radius / radius) * (x * sqrtO (-2 * logO radius / radius))
+        = x * x * (sqrtO (-2 * logO radius / radius) * sqrtO (-2 * logO radius / radius)) := by ring
+      _ = x * x * (-2 * logO radius / radius) := by rw [this]
+
+/-- the rejection loop stops at the first acceptable pair: the fuel `i + 1` suffices when pair `i` is acceptable, so
+    the only streams on which the real loop does not return are those that never offer a pair with `0 < radius < 1`
+    (probability 0; e.g. the constant stream) -/
+theorem gaussian_random_terminates (rand : Nat → Nat) (i c : Nat)
+    (h : let x : K := toUnit (rand (c + 2 * i)); let y : K := toUnit (rand (c + 2 * i + 1));
+         ¬ (1 ≤ x * x + y * y ∨ x * x + y * y = 0)) :
+    ∃ r, polarLoop (K := K) rand (i + 1) c = some r :=
+  polarLoop_terminates rand i c h
+
+end randomhpp
 
 /-! ## Random Projection and Factor Analysis -/
 section projections
